@@ -217,14 +217,19 @@ impl Driver for ExecDriver {
             let ops = &din.funcs[f as usize].ops;
             let st = &structures[&f];
             let last = ops.len() - 1;
-            let modes: &[IMode] = match self.focus {
-                Focus::Neutral => &[IMode::Before, IMode::After, IMode::Alt, IMode::Before, IMode::After, IMode::SemAfter, IMode::BlockEntry, IMode::BlockExit, IMode::FuncEntry, IMode::FuncExit],
+            // the mode under test three times out of four; otherwise a probe of any other mode
+            // as background (its reports are not compared, but it shares the lowering machinery
+            // with the probes under test and must not disturb them)
+            let all: &[IMode] = &[IMode::Before, IMode::After, IMode::Alt, IMode::Before, IMode::After, IMode::SemAfter, IMode::BlockEntry, IMode::BlockExit, IMode::FuncEntry, IMode::FuncExit];
+            let own: &[IMode] = match self.focus {
+                Focus::Neutral => all,
                 Focus::FuncEntryExit => &[IMode::FuncEntry, IMode::FuncExit],
                 Focus::BlockEntry => &[IMode::BlockEntry],
                 Focus::BlockExit => &[IMode::BlockExit],
                 Focus::SemAfter => &[IMode::SemAfter],
             };
-            let mode = *c.t.pick(modes);
+            let mode = if self.focus != Focus::Neutral && c.t.chance(1, 4) { *c.t.pick(all) } else { *c.t.pick(own) };
+            let background = self.focus != Focus::Neutral && !own.contains(&mode);
             if mode.is_func_level() && plan.iter().any(|i| i.func == f && i.mode == mode) {
                 continue;
             }
@@ -259,7 +264,7 @@ impl Driver for ExecDriver {
                 continue;
             }
             // ---- known classes
-            if mode == IMode::BlockExit && dm::op_name(&ops[at]) == "If" {
+            if mode == IMode::BlockExit && dm::op_name(&ops[at]) == "If" && !background {
                 let end = st.else_of.get(&at).copied().unwrap_or_else(|| st.end_of[&at]);
                 if (at + 1..end).any(|i| is_open(&ops[i])) {
                     if c.avoid("block_exit_on_if_with_nested_construct") {
@@ -341,8 +346,11 @@ impl Driver for ExecDriver {
             };
             let checked = match self.focus {
                 Focus::Neutral => matches!(mode, IMode::Before | IMode::After | IMode::Alt) && !structural,
-                _ => true,
+                _ => !background,
             };
+            if background {
+                c.class("background_probe_of_another_mode");
+            }
             if checked {
                 if let Some(k) = ev {
                     mon.add(f, at, k, id);
@@ -399,7 +407,12 @@ impl Driver for ExecDriver {
             }
         };
         // ---------------- instrument
-        let ap = match run_plan(&bytes, &plan, true) {
+        // one time in four the module is encoded twice and the second encoding is executed
+        let encodes = if c.t.chance(1, 4) { 2 } else { 1 };
+        if encodes == 2 {
+            c.class("second_encoding_executed");
+        }
+        let ap = match run_plan_n(&bytes, &plan, true, encodes) {
             Ok(a) => a,
             Err(o) => return by_trigger(o),
         };
